@@ -36,7 +36,7 @@ MIN_HITS = {
         'mon:size': 30000, 'mon:count': 30000, 'mon:window': 40000, 'mon:balance': 20000, 'mon:cover': 18000,
         'mon:cyclic': 9000, 'mon:reshuffle': 800, 'mon:reiterate': 40000, 'concurrent-iterators': 3000, 'mon:rows': 50000, 'mon:readonly': 30000,
         'count:epochs': 1500, 'count:epochs-drop': 1500, 'count:steps': 5000, 'count:min-epochs-steps': 15000,
-        'count:infinite': 1000, 'straddle>=2': 4000, 'B>N': 10000, 'seed=None': 5000,
+        'count:infinite': 1000, 'straddle>=2': 4000, 'B>N': 10000, 'seed=None': 5000, 'big-dataset': 9,
     },
     'thorough': {
         'mon:size': 90000, 'mon:count': 90000, 'mon:window': 140000, 'mon:balance': 70000, 'mon:cover': 60000,
@@ -329,6 +329,24 @@ def run(ctx):
     skip = bool(rng.rand() < 0.1)
     seed = None if rng.rand() < 0.25 else int(rng.randint(0, 2**32 - 1))
     guarded(ctx, run_point, ctx, cd, rng, n, b, e, s, drop, skip, seed, cut=cut)
+
+  # big datasets (integer-width and chunk boundaries of any index buffer): N around 2^15, 2^16 and beyond, large batches,
+  # two to three windows each; every value class of N is hit in both tiers
+  BIG_N = [32767, 32768, 32769, 40000, 65535, 65536, 65537, 70001, 131073]
+  for cid, rng in ctx.cases('big', len(BIG_N) * (1 if ctx.quick else 3)):
+    i = int(cid.split('/')[1])
+    n = BIG_N[i % len(BIG_N)] if i < len(BIG_N) else int(rng.randint(2**15 - 5, 2**17 + 5))
+    b = int([4096, 5000, 8192, n, n // 2 + 1][rng.randint(5)])
+    m = rng.randint(3)
+    if m == 0:
+      e, s = 2, None
+    elif m == 1:
+      e, s = None, -(-2 * n // b) + 1
+    else:
+      e, s = 3, -(-2 * n // b) + 2
+    skip = bool(i % 4 == 3)
+    ctx.count('big-dataset')
+    guarded(ctx, run_point, ctx, cd, rng, n, b, e, s, bool(rng.rand() < 0.5), skip, int(rng.randint(0, 2**32 - 1)))
 
 
 TECHNIQUE = ('runtime monitoring: index-stream checker over a unique idx column (batch size, documented batch count, '
